@@ -92,9 +92,9 @@ fn build_surplus_sub(spec: &Spec, kind: u8) -> Option<World> {
             },
             sigs: vec![SigEntry::good(k)],
             tamper: None,
-            links: vec![LinkFile { step: "inner".into(), filed_under: worker.clone(), name_field: None, body: Body::Link { link, sigs: vec![SigEntry::good(&worker)], tamper: None } }],
+            links: vec![LinkFile { step: "inner".into(), filed_under: worker.clone(), name_field: None, symlink_store: false, body: Body::Link { link, sigs: vec![SigEntry::good(&worker)], tamper: None } }],
         };
-        if ci == bad {
+        if ci == bad && kind % 8 < 4 {
             match kind % 4 {
                 0 => inner.links.clear(),
                 1 => inner.layout.expires = 1_000_000_000,
@@ -108,9 +108,22 @@ fn build_surplus_sub(spec: &Spec, kind: u8) -> Option<World> {
                 }
             }
         }
-        w.links.push(LinkFile { step: name.clone(), filed_under: k.clone(), name_field: None, body: Body::Sub { world: Box::new(inner), placement: Placement::Proper } });
+        w.links.push(LinkFile { step: name.clone(), filed_under: k.clone(), name_field: None, symlink_store: false, body: Body::Sub { world: Box::new(inner), placement: Placement::Proper } });
     }
     Some(w)
+}
+
+/// Name of the link sub-directory of the sub-layout copy that is made unusable (kinds 4..8: on disk, after writing).
+fn surplus_bad_dir(spec: &Spec, w: &World) -> Option<String> {
+    let kind = spec.surplus_sub?;
+    if kind % 8 < 4 {
+        return None;
+    }
+    let i = spec.step as usize % w.layout.steps.len();
+    let name = w.layout.steps[i].name.clone();
+    let subs: Vec<&LinkFile> = w.links.iter().filter(|f| f.step == name && matches!(f.body, Body::Sub { .. })).collect();
+    let bad = (spec.variants.len() + spec.creation_order.len()) % 2;
+    subs.get(bad).map(|f| format!("{}.{}", f.step, prefix8(&f.filed_under)))
 }
 
 fn copy_tree(from: &std::path::Path, to: &std::path::Path) {
@@ -268,7 +281,7 @@ impl Property for C13 {
     fn rule() -> String {
         "Generated: valid worlds in which one step gets threshold <= 1 and 2-4 validly signed, authorised links that differ (extra product, \
          extra material, other digest, or only command/byproducts), optionally with a rule (DISALLOW variant-*) that only some of them \
-         violate, or with an artifact recorded under two digest algorithms that agree on one and differ on the other, tied by MATCH + DISALLOW; or the step is delegated by two authorised functionaries at threshold 1 and one of the two sub-layouts cannot verify (inner link missing / by a stranger, expired, inner rule failure); a quarter of the worlds additionally carry three valid signatures by untrusted keys on the layout and on every link (more signatures than authorised keys); the files of the link directory are created in a generated order. Before the repetitions the process verifies the directory once while each link file is a same-size, same-mtime near copy of its final content (history on disk). Oracle (invariant over repetitions): R in-process \
+         violate, or with an artifact recorded under two digest algorithms that agree on one and differ on the other, tied by MATCH + DISALLOW; or the step is delegated by two authorised functionaries at threshold 1 and one of the two sub-layouts cannot verify (inner link missing / by a stranger, expired, inner rule failure, or its link directory removed, replaced by a regular file, by a dangling or by a self-referential symbolic link); a quarter of the worlds additionally carry three valid signatures by untrusted keys on the layout and on every link (more signatures than authorised keys); the files of the link directory are created in a generated order. Before the repetitions the process verifies the directory once while each link file is a same-size, same-mtime near copy of its final content (history on disk). Oracle (invariant over repetitions): R in-process \
          repetitions (every HashMap gets fresh hash keys) and P fresh processes give the same verdict and, on success, the same summary \
          link as a JSON value. R=16,P=2 quick (miss probability for a fair flip 2^-17); R=64,P=8 thorough. Non-trivial: at least two counted \
          links of one step differ; distinct by (layout shape, variants, rule trap, step position)."
@@ -290,7 +303,7 @@ impl Property for C13 {
             proptest::collection::vec(any::<u8>(), 0..6),
             prop_oneof![3 => Just(false), 1 => Just(true)],
             prop_oneof![3 => Just(false), 1 => Just(true)],
-            prop_oneof![5 => Just(None), 1 => (0u8..4).prop_map(Some)],
+            prop_oneof![5 => Just(None), 2 => (0u8..8).prop_map(Some)],
             prop_oneof![3 => Just(false), 1 => Just(true)],
         )
             .prop_map(|((world, owners), step, variants, rule_trap, creation_order, two_digest_match, multi_party, surplus_sub, cosigned)| Spec { world, owners, step, variants, rule_trap, creation_order, two_digest_match, multi_party, surplus_sub, cosigned })
@@ -320,6 +333,24 @@ impl Property for C13 {
         for p in std::fs::read_dir(&stage).unwrap().flatten().map(|e| e.path()).filter(|p| p.is_dir()) {
             copy_tree(&p, &links.join(p.file_name().unwrap()));
         }
+        if let (Some(bad), Some(kind)) = (surplus_bad_dir(spec, &w), spec.surplus_sub) {
+            // the sub-layout's link directory is not a directory (any more)
+            let p = links.join(&bad);
+            let _ = std::fs::remove_dir_all(&p);
+            match kind % 8 {
+                5 => {
+                    let _ = std::fs::write(&p, "not a directory");
+                }
+                6 => {
+                    let _ = std::os::unix::fs::symlink("nowhere", &p);
+                }
+                7 => {
+                    let _ = std::os::unix::fs::symlink(&bad, &p);
+                }
+                _ => {}
+            }
+            o.class("sub-layout-link-directory-unusable");
+        }
         std::fs::write(dir.join("__layout.json"), &info.layout_text).unwrap();
         std::fs::write(dir.join("__keys.json"), serde_json::to_string(&spec.owners).unwrap()).unwrap();
         let j = judge(&w, &info, &spec.owners, now, true);
@@ -340,7 +371,7 @@ impl Property for C13 {
             o.class("cosigned-by-untrusted-keys");
         }
         if let Some(k) = spec.surplus_sub {
-            o.class(format!("surplus-failing-sub-layout:{}", k % 4));
+            o.class(format!("surplus-failing-sub-layout:{}", k % 8));
         }
         // history on disk: this process has verified the directory once while every link file was a
         // near copy of its final content (one hex digit of the signature differs; same path, size
